@@ -25,7 +25,12 @@ func Run(tt *testing.T) func(t *sim.Tape, profile, tier string) *sim.RunResult {
 			case "C17":
 				kind = runC17(s, tier)
 			case "C10":
-				kind = runHostile(s)
+				if t.Chance(1, 4) {
+					s.countSweep = true
+					kind = runCodec(s)
+				} else {
+					kind = runHostile(s)
+				}
 			case "C20":
 				kind = runText(s)
 			case "C11":
@@ -48,7 +53,7 @@ func Run(tt *testing.T) func(t *sim.Tape, profile, tier string) *sim.RunResult {
 				res.Nontrivial = s.stats["text.parsed"] > 0
 			}
 			if profile == "C10" {
-				res.Nontrivial = s.stats["hostile.decoded"] > 0
+				res.Nontrivial = s.stats["hostile.decoded"] > 0 || s.stats["codec.objects"] > 0
 			}
 			if profile == "C17" {
 				res.Nontrivial = s.stats["c17.mined"] > 0 || s.stats["c17.v1-validated"] > 0
